@@ -43,28 +43,31 @@ struct Plain {
     int v;
     Plain() : v(0) { }
     explicit(false) Plain(int x) : v(x) { }
-    Plain(Plain const& o)
+    Plain(Plain const& o) noexcept(F == mc::rule3)
         requires(F != mc::move_only)
         : v(o.v)
     {
         ++twin_counts().copies;
     }
     Plain(Plain&& o) noexcept
-        requires(F != mc::copy_only)
+        requires(F != mc::copy_only && F != mc::rule3)
         : v(o.v)
     {
         ++twin_counts().moves;
         if (this != &o) { o.v = -1; }
     }
     auto operator=(Plain const& o) -> Plain&
-        requires(F != mc::move_only)
+        requires(F == mc::rule3)
+    = default; // rule3: trivial copy assignment, user-provided copy constructor + destructor, no move members
+    auto operator=(Plain const& o) -> Plain&
+        requires(F != mc::move_only && F != mc::rule3)
     {
         ++twin_counts().copy_assigns;
         v = o.v;
         return *this;
     }
     auto operator=(Plain&& o) noexcept -> Plain&
-        requires(F != mc::copy_only)
+        requires(F != mc::copy_only && F != mc::rule3)
     {
         ++twin_counts().move_assigns;
         if (this != &o) {
